@@ -255,10 +255,15 @@ fn case(ctx: &mut Ctx, case_seed: u64) {
             let mut runs: Vec<Vec<K>> = vec![];
             // sort column of every source as the stack-vs-k-way decision sees it (numeric types)
             let mut segcols: Vec<(String, Vec<u64>)> = vec![];
+            // full dumps of the sources for the Lean merge through the REAL new→old table
+            let mut src_dumps: Vec<(crate::segdump::SegDump, Vec<u64>)> = vec![];
             for id in &ids {
                 let seg = env.index.searchable_segments().unwrap().into_iter().find(|s| s.id() == *id).unwrap();
                 let r = SegmentReader::open(&seg).unwrap();
                 let keys = segment_keys(&r, ty).unwrap();
+                if let Ok(d) = dump_segment(&seg, &r, None) {
+                    src_dumps.push((d, uids_of(&r).unwrap()));
+                }
                 if !matches!(ty, "str" | "bytes") && r.num_docs() > 0 {
                     if let Ok(Some((col, _))) = r.fast_fields().u64_lenient("sk") {
                         let card = match col.get_cardinality() {
@@ -321,6 +326,32 @@ fn case(ctx: &mut Ctx, case_seed: u64) {
                                 } else {
                                     ctx.report.violation("model", "C17:decision-bad-answer", format!("model answered {ans}"), case.clone());
                                     return;
+                                }
+                            }
+                            // the merged segment = the Lean merge of the dumped sources through the
+                            // table the real merge used (read off the unique ids)
+                            if src_dumps.len() == ids.len() {
+                                let nkeys: usize = src_dumps.iter().map(|(d, _)| d.terms.len()).sum();
+                                if nkeys * nkeys * src_dumps.len() <= 30_000_000 {
+                                    let mut addr: HashMap<u64, (usize, usize)> = HashMap::new();
+                                    for (si, (d, u)) in src_dumps.iter().enumerate() {
+                                        for doc in 0..d.max_doc as usize {
+                                            if d.alive[doc] { addr.insert(u[doc], (si, doc)); }
+                                        }
+                                    }
+                                    let muids = uids_of(&r).unwrap();
+                                    let tbl: Vec<String> = muids.iter().filter_map(|u| addr.get(u)).map(|(a, b)| format!("{a}:{b}")).collect();
+                                    if tbl.len() == muids.len() {
+                                        if let Ok(md) = dump_segment(&seg, &r, None) {
+                                            let toks: Vec<String> = src_dumps.iter().map(|(d, _)| d.token_with(&d.alive)).collect();
+                                            let ans = ctx.model.ask(&format!("C17 shuffled {} {}", if tbl.is_empty() { "-".to_string() } else { tbl.join(",") }, toks.join(" ")));
+                                            ctx.report.count("merge:lean-shuffled-merge-compared");
+                                            if ans != md.logical().token() {
+                                                ctx.report.violation("model", "C17:shuffled-merge-differs", format!("merged segment of a sorted index ({ty} {}) differs from the Lean merge of the dumped sources through the real new→old table", dir_name(desc)), case.clone());
+                                                return;
+                                            }
+                                        }
+                                    }
                                 }
                             }
                             let disjoint = runs.windows(2).all(|w| w[0].iter().all(|a| w[1].iter().all(|b| le_dir(desc, a, b))));
